@@ -103,6 +103,11 @@ class BaseCtx:
     def axiom_inverse(self, f, g, proved_by):
         """forall x. g(f(x)) == x for two opaque spec functions of one argument (a lemma proved by `proved_by`)"""
         pass
+    def loop_body(self, f, ordinal, local_vars):
+        """execute ONCE the body of the ordinal-th loop of repository function f, from an arbitrary state of its
+        local variables (the inductive step of the loop).  Returns (yielded values, locals afterwards).
+        Only the evaluator can start a function in the middle: not natively replayable."""
+        raise Failure('loop bodies cannot be started natively')
     def replace_wordfn(self, f, specfn):
         """callee f maps Bits words to a Bits word and is specified by the word function specfn(w, *values)"""
         def h(I, args, kw):
